@@ -36,7 +36,7 @@ ID = "C08"
 QUICK_RUNS = 700
 CHUNK = 10
 THOROUGH_BUDGET_S = 900
-WATCHDOG = 240.0
+WATCHDOG = 150.0
 LEVEL = "exploration"
 RULE = (
     "one run = one specification from a fault-free simulated search (default / forest DB; 0-2 statistics; fiat-verified classes) whose "
